@@ -7,8 +7,9 @@
      (structural recursion on fuel: with max_attempts = None the run need not end);
    - [step]: the futures of several requests sharing the published state, at poll
      granularity (Call / Poll / Advance / Complete / MakeReady events), with ghost logs.
-   [attempt] is a nat here and a saturating u32 in the code: the model is the code for fewer
-   than 2^32 - 1 reconnectable failures of one request.
+   [attempt] is a nat here (the true number of connection failures counted); the code keeps
+   min(attempt, u32::MAX) in a u32 ([sat32]) and treats a count that no longer fits as
+   exceeding every max_attempts ([exceeded], service.rs: counted = attempt.checked_add(1)).
    Executable; no proofs here.  Time unit: nanoseconds; the timer rounds deadlines up to
    whole milliseconds and every poll has a cooperative budget (Lib/TokioTime.v). *)
 From TR Require Import Lib.Base Lib.TokioTime.
@@ -38,8 +39,21 @@ Section Reconnect.
   Definition should_reconnect (c : cfg) (e : Err) : bool :=
     match pred c with Some p => p e | None => true end.
 
+  (* the u32 the code stores when [n] failures have been counted: attempt.checked_add(1)
+     .unwrap_or(u32::MAX), i.e. min(n, u32::MAX) *)
+  Definition U32MAX : Z := 4294967295.
+  Definition sat32 (n : nat) : nat := if Z.of_nat n <=? U32MAX then n else Z.to_nat U32MAX.
+
+  (* [a] = number of failures counted including this one.  counted = Some a if it fits a u32,
+     None otherwise; exceeded iff counted.map_or(true, |k| k > max) *)
   Definition exceeded (c : cfg) (a : nat) : bool :=
-    match max_attempts c with Some m => (m <? a)%nat | None => false end.
+    match max_attempts c with
+    | Some m => if Z.of_nat a <=? U32MAX then (m <? a)%nat else true
+    | None => false
+    end.
+
+  (* policy.delay_for_attempt(attempt as usize) on the stored (saturated) counter *)
+  Definition delay_at (c : cfg) (a : nat) : option Z := policy c (sat32 a).
 
   Inductive action := AReturn (x : Res + rerr) | ARetry (delay : Z) (e : Err).
 
@@ -53,8 +67,8 @@ Section Reconnect.
       if negb (should_reconnect c e) then ([], AReturn (inr (ServiceError e)))
       else
         let a := S attempt in
-        if exceeded c a then ([Disconnected], AReturn (inr (MaxAttemptsExceeded a e)))
-        else match policy c a with
+        if exceeded c a then ([Disconnected], AReturn (inr (MaxAttemptsExceeded (sat32 a) e)))
+        else match delay_at c a with
              | Some d => ([Disconnected; Reconnecting], ARetry d e)
              | None => ([Disconnected], AReturn (inr (ConnectionFailed e)))
              end
@@ -278,7 +292,7 @@ Section Reconnect.
     fst (step c inps pf cp s e).
 
   Definition started_calls (r : rst) : list (Z * Z) :=
-    map (fun cl => (c_start cl, c_end cl)) (rev (log r)) ++
+    map (fun cl => (c_start cl, c_end cl)) (rev' (log r)) ++
     match ph r with PCalling _ => [(cur_start r, -1)] | _ => [] end.
 End Reconnect.
 
@@ -312,7 +326,9 @@ Arguments obs : clear implicits.
      ready (before call k >= 1) 0: Ready(Ok), 1: Ready(Err(100000+payload)), 2: Pending until MakeReady
      op 1 = Poll a (calls the service first if not yet done), 2 = Advance a ms, 3 = Complete a,
         4 = MakeReady a, 5 = Call a (service.call without polling the future)
-   Calls beyond L behave like the all-zero entry.  Instants in the trace are milliseconds
+     retry: bit 0 = retry_on_reconnect; retry / 2 <> 0: calls beyond L fail with a connection
+       failure for ever (Err(code k, flag true), immediate, ready) instead of the all-zero entry
+   Calls beyond L behave like the all-zero entry (unless retry / 2 <> 0).  Instants in the trace are milliseconds
    (all instants of a script are whole milliseconds).
    trace = per event [r; kind; payload; attempts; wake mask; published state (0 connected,
              1 disconnected, 2 reconnecting); inner calls started so far; finished so far;
@@ -323,19 +339,22 @@ Arguments obs : clear implicits.
            ++ per request [number of inner calls; (start, end or -1) per call] ++ [0] *)
 Definition Zerr := (Z * bool)%type.
 
-Definition entry (s : list Z) (L : nat) (base : nat) (k j : nat) : Z :=
-  if (k <? L)%nat then zn s (base + 4 * k + j) else 0.
+(* calls beyond the table: tail = false: the all-zero entry (Ok 0, immediate, ready);
+   tail = true: a connection failure for ever (Err(code k, flag true), immediate, ready) *)
+Definition entry (s : list Z) (L : nat) (tail : bool) (base : nat) (k j : nat) : Z :=
+  if (k <? L)%nat then zn s (base + 4 * k + j)
+  else if tail then match j with O => 1 | S O => Z.of_nat k | _ => 0 end else 0.
 
 Definition outcome_of (kind p : Z) : outcome Z Zerr :=
   if kind =? 0 then Ok p else if kind =? 1 then Fail (p, true) else Fail (p, false).
 
-Definition rin_of (s : list Z) (L : nat) (base : nat) : rin Z Zerr :=
-  {| r_inner := fun k => (negb (entry s L base k 2 =? 0),
-                          outcome_of (entry s L base k 0) (entry s L base k 1));
+Definition rin_of (s : list Z) (L : nat) (tail : bool) (base : nat) : rin Z Zerr :=
+  {| r_inner := fun k => (negb (entry s L tail base k 2 =? 0),
+                          outcome_of (entry s L tail base k 0) (entry s L tail base k 1));
      r_ready := fun k =>
-       let m := entry s L base k 3 in
+       let m := entry s L tail base k 3 in
        if m =? 0 then ROk else
-       if m =? 1 then RErr (100000 + entry s L base k 1, true) else RGated |}.
+       if m =? 1 then RErr (100000 + entry s L tail base k 1, true) else RGated |}.
 
 Definition pred_of (m : Z) : option (Zerr -> bool) :=
   if m =? 0 then None else
@@ -403,7 +422,8 @@ Definition obs_ints (s' : st Z Zerr) (n : nat) (o : obs Z Zerr) : list Z :=
      end
    else [-1; 0; 0; 0]) ++
   [wake_mask s' n; cs_code (cs s');
-   fold_left (fun acc j => acc + Z.of_nat (length (started_calls (reqs s' j)))) (seq 0 n) 0;
+   fold_left (fun acc j => acc + Z.of_nat (length (log (reqs s' j))) +
+                           match ph (reqs s' j) with PCalling _ => 1 | _ => 0 end) (seq 0 n) 0;
    fold_left (fun acc j => acc + Z.of_nat (length (log (reqs s' j)))) (seq 0 n) 0;
    cb_hash (cb_states o); rc_hash (o_att0 o) (o_ws o)].
 
@@ -427,9 +447,10 @@ Definition run_script (s : list Z) : list Z :=
   let c := {| pred := pred_of (zn s 2);
               max_attempts := if Z.even (zn s 0) then None else Some (Z.to_nat (zn s 1));
               policy := policy_of s L (zn s 3) (zn s 4) (zn s 5);
-              retry_on_reconnect := negb (zn s 6 =? 0) |} in
+              retry_on_reconnect := Z.odd (zn s 6) |} in
+  let tail := negb (zn s 6 / 2 =? 0) in
   let blk := (4 * L)%nat in
-  let inps := fun i => rin_of s L (9 + L + i * blk) in
+  let inps := fun i => rin_of s L tail (9 + L + i * blk) in
   let evs := evs_of n (chunk2 (skipn (9 + L + n * blk) s)) in
   let '(tr, sf) := run_evs c inps n init evs in
   tr ++ flat_map (fun i => calls_ints (reqs sf i)) (seq 0 n) ++ [0].
